@@ -88,12 +88,13 @@ def run_crate(repo, crate, units, jobs, log_dir):
 
         def is_harness(c):
             return '/verif/kani/' in (c.get('location') or {}).get('file', '') or 'verif_kani' in c.get('function', '')
-        counted = []
+        counted = []; ignored = 0
         for c in failed:
             if c.get('category') == 'unwind': continue
-            if c.get('category') == 'NaN': continue   # CBMC --nan-check: producing a NaN is legal IEEE-754 / Rust behaviour, not a violation
+            if c.get('category') == 'NaN':
+                ignored += 1; continue   # CBMC --nan-check: producing a NaN is legal IEEE-754 / Rust behaviour, not a violation
             if u['mayreject'] and c.get('category') == 'assertion' and not is_harness(c):
-                continue   # the validator's own assert!/expect/unwrap/index panic: a rejection
+                ignored += 1; continue   # the validator's own assert!/expect/unwrap/index panic: a rejection
             if c.get('category') == 'unsupported_construct' or 'not currently supported' in c.get('description', ''):
                 undet.append(c); continue
             counted.append(c)
@@ -103,7 +104,7 @@ def run_crate(repo, crate, units, jobs, log_dir):
             out['state'] = 'undecided'; out['why'] = 'unwinding assertion failed (loop bound too small for this code): other red checks of this harness are not reported'
         elif counted:
             out['state'] = 'violation'
-        elif r.get('status') != 'Success' and not (u['mayreject'] and failed and not undet):
+        elif r.get('status') != 'Success' and not (ignored > 0 and not undet and ignored == len([c for c in failed if c.get('category') != 'unwind'])):
             # timeout / OOM / solver error / killed
             out['state'] = 'undecided'
             out['why'] = 'harness did not complete (status %s; timeout, memory cap or tool limit)' % r.get('status')
